@@ -107,3 +107,16 @@ def c29_thread_publish_race(case):
 
 
 PREDICATES = {f.__name__: f for f in (c29_thread_publish_race, c19_lr_cyclic_runaway, c26_lalry_unreachable, c33_terminal_name_self, c16_newline_not_error, c14_scnr2_restore_last_char, c15_three_atom_end)}
+
+
+def c27_two_comments_in_prolog_declaration(case):
+    """formatting twice differs when two comments were inserted between tokens of the prolog (before '%%')"""
+    g = case.get("gap") or {}
+    if case.get("why") != ["not idempotent"] or not isinstance(g.get("gap"), list):
+        return False
+    text = case.get("text") or ""
+    head = text.split("%%")[0]
+    return head.count("c1") == 1 and head.count("c2") == 1
+
+
+PREDICATES["c27_two_comments_in_prolog_declaration"] = c27_two_comments_in_prolog_declaration
